@@ -493,7 +493,8 @@ def check_C19(tier, seed):
     run = Run("C19", tier, seed)
     quick = tier == "quick"
     run.rule = ("G1/G2 programs (operands of comparisons and membership tests, selected attribute expressions, predicate "
-                "arguments) on worlds whose values are mostly the falsy member of their sort (0, '', [], None), judged "
+                "arguments), flatten programs (elements), rule heads (constructor arguments) and predicate-form terms (field "
+                "constraints) on worlds whose values are mostly the falsy member of their sort (0, '', [], None), judged "
                 "against the denotation; plus a metamorphic twin: the same program and world with every value shifted away "
                 "from falsy (comparison outcomes preserved) must return the same rows by object index; non-trivial = "
                 "domain contains falsy values and the result is neither empty nor everything")
@@ -536,11 +537,47 @@ def check_C19(tier, seed):
             except shift.NotShiftable:
                 qc.add(W, qs, evs)
 
+    def falsy_world(n):
+        W = {"objs": [{"cls": "A", "f": datasets.obj_fields(rng, n)} for _ in range(n)]}
+        for o in W["objs"]:
+            for name in ("n", "m"):
+                if rng.random() < 0.5:
+                    o["f"][name] = {"t": "int", "v": 0}
+            if rng.random() < 0.5:
+                o["f"]["s"] = {"t": "str", "v": []}
+            if rng.random() < 0.4:
+                o["f"]["o"] = {"t": "none", "v": 0}
+        return W
+    # the other value positions the property names, on the same kind of data: flattened elements (C16), constructor
+    # arguments of rule heads (C11), field constraints of predicate-form terms (C13)
+    flat = run.export("GenQuery", "G7i", "PROG", constants=dict(G="G7i", NV=2, LeafLimit=40, MaxLeaves=1 if quick else 2, MaxNot=1,
+                                                                NeedNot=False), count=False)
+    for p in rng.sample(flat, min(len(flat), 400 if quick else 8000)):
+        W = _no_repeats(falsy_world(rng.randint(2, 5)))
+        qc.add(W, [mk_query(p, datasets.domains_for(rng, W, 1, maxdom=4))], [drain_ev(1)], tag="flatten")
+    heads = run.export("GenQuery", "G4", "PROG", constants=dict(G="G4", NV=2, LeafLimit=10, MaxLeaves=1 if quick else 2, MaxNot=1,
+                                                                NeedNot=False), count=False)
+    for p in rng.sample(heads, min(len(heads), 300 if quick else 8000)):
+        W = falsy_world(rng.randint(2, 5))
+        doms = datasets.domains_for(rng, W, 2, maxdom=3)
+        q = {"vars": [{"cls": "A", "dom": doms[0]}, {"cls": "A", "dom": doms[1]}], "flats": [], "bound": [],
+             "desc": "entity", "quant": "infer", "sel": [], "cond": p["cond"], "head": p["head"], "varkeys": [1, 2]}
+        qc.add(W, [q], [{"op": "infer", "qi": 1}], tag="head")
+    terms = run.export("GenTerm", "fields", "PROG", constants=dict(Part="fields"), invariants=("Export",), count=False)
+    for p in rng.sample(terms, min(len(terms), 300 if quick else 675)):
+        W = falsy_world(rng.randint(3, 6))
+        doms = datasets.domains_for(rng, W, len(p["vars"]), maxdom=5)
+        qc.add(W, [mk_term_query(p, doms)], [drain_ev(1)], tag="term")
+
     def nontrivial(t):
         ev = t["evs"][0]
         q = t["qs"][0]
-        if ev.get("exc") == "none" and 0 < len(ev["rows"]) < domain_size(q) and _has_falsy(t["W"], q):
-            return digest([q["cond"], q["sel"]])
+        if ev.get("exc") != "none":
+            return None
+        if ev["op"] == "infer":
+            return digest(["head", q["cond"], q["head"]]) if 0 < len(ev["insts"]) < domain_size(q) else None
+        if 0 < len(ev["rows"]) and (q.get("flats") or len(ev["rows"]) < domain_size(q)) and _has_falsy(t["W"], q):
+            return digest([q["cond"], q["sel"], q.get("flats"), [v.get("fields") for v in q["vars"]]])
         return None
     qc.execute(nontrivial)
     run.extra["shifted_twins"] = twins
